@@ -194,7 +194,7 @@ def _spec_of(rng, kind):
     return rt.rand_spec(rng)
 
 
-def compiled_case(seed, nsteps=9, modes=("MCS", "GENERATIONAL", "TOPOLOGICAL"), prunes=(True, False), export=False, neps=2, spec_kind="random"):
+def compiled_case(seed, nsteps=9, modes=("MCS", "GENERATIONAL", "TOPOLOGICAL"), prunes=(True, False), export=False, neps=2, spec_kind="random", exec_export=False):
     """async recording -> graph -> compiled rollouts for every (mode, prune); returns async + compiled records."""
     import jax
     import numpy as onp
@@ -229,7 +229,20 @@ def compiled_case(seed, nsteps=9, modes=("MCS", "GENERATIONAL", "TOPOLOGICAL"), 
                 gs = g.init_record(gs, params=True, rng=True, inputs=True, state=True, output=True)
                 gs = g.rollout(gs, carry_only=True)
                 entry["episodes"].append(compiled_record_dict(gs))
+            if exec_export:
+                # the instance for the abstract executor of the Lean model (Compiled/Exec.lean): cells only, no vertex rows
+                names = [n["name"] for n in spec["nodes"]]
+                entry["exec"] = []
+                for e in range(len(lengths)):
+                    inst = rt.sched_instance(g, names, spec["supervisor"], prune, e)
+                    inst["verts"] = []
+                    entry["exec"].append(dict(inst=inst, sizes=rt.buffer_sizes_list(g, names)))
             out["compiled"].append(entry)
+    if exec_export:
+        names = [n["name"] for n in spec["nodes"]]
+        nmax = max(lengths) * 40 + 20
+        out["probe"] = dict(names=names, w=[int(run.gs0.params[n].w) for n in names], s0=[int(run.gs0.state[n].s) for n in names],
+                            y0=[int(run.nodes[n].init_output().y) for n in names], draws=[rt.probe_draws(run.gs0.rng[n], nmax) for n in names])
     if export:
         out["graphs_raw"] = rt.graph_to_dict(graphs_raw)
     return out
